@@ -57,6 +57,7 @@ def run(name, pids):
     if rc:
         rc, o = sh(f"git apply -3 {dst}/patch.diff", "/repo")
         if rc:
+            sh("git reset -q --hard HEAD", "/repo")
             print("patch does not apply to /repo:", o); return 2
     try:
         for pid in pids:
